@@ -54,6 +54,9 @@ def imported_facts(B, bb):
             continue
         ht = ads[0][3]
         c = ht.get('resolved') or ht.get('callee') or callee_of(ht) or ''
+        if (ht.get('callee') or '') in COMB and COMB[ht.get('callee')][0] == 'None' and ht['args']:
+            out.append((sdesc_operand(B, ht['args'][0]), 'Some'))          # past `x.ok_or_else(..)?` x was Some, as past the Some arm of a match on x
+            continue
         if not inline.is_new_helper(F, c):
             continue
         amap = {k + 1: sdesc_operand(B, a) for k, a in enumerate(ht['args'])}
@@ -166,6 +169,13 @@ def returns_of(F, cg, fn, amap=None, prefix=(), depth=0):
     for i, t in B.calls():
         if t['dest']['l'] == 0 and not t['dest']['p']:
             c = t.get('resolved') or t.get('callee') or callee_of(t) or ''
+            if (t.get('callee') or '') in COMB and COMB[t.get('callee')][0] in ('None', 'Err') and c.split('::')[-1] in ('ok_or_else', 'map_err'):
+                # tail `x.ok_or_else(|| e)` is `match x { Some(v) => Ok(v), None => Err(e) }`; tail `r.map_err(f)` is `match r { Ok(v) => Ok(v), Err(e) => Err(f(e)) }`
+                here = set(prefix) | inline.fact_strings(structural_facts(B, i), canon_fact, amap)
+                if c.split('::')[-1] == 'ok_or_else':
+                    here.add('%s=Some' % inline.subst(sdesc_operand(B, t['args'][0]), amap))
+                out.append(('Ok', sorted(here)))
+                continue
             if c.split('::')[-1] == 'from_residual':
                 continue          # the error arm of `?` (whether it is reachable at all depends on the callee: NeverErr pruning)
             if not (depth < 3 and c != fn and inline.is_new_helper(F, c)):
@@ -226,6 +236,92 @@ def _helper_result(t, argdescs):
     return inline.subst(rs[0][0][6:], {k + 1: d for k, d in enumerate(argdescs)})
 
 
+# error-side combinators that take a closure: the closure body is the `None` / `Err` arm of the equivalent match
+COMB = {
+    '<std::option::Option<T>>::ok_or_else': ('None', None),
+    '<std::option::Option<T>>::unwrap_or_else': ('None', None),
+    '<std::result::Result<T, E>>::map_err': ('Err', ' as Err.0'),
+    '<std::result::Result<T, E>>::unwrap_or_else': ('Err', ' as Err.0'),
+    '<std::result::Result<T, E>>::or_else': ('Err', ' as Err.0'),
+}
+_UPV = re.compile(r'upvar#(\d+)')
+
+
+def comb_closures(F):
+    """closure bodies that are only the error arm of such a combinator (they are described inside the function that calls the combinator)"""
+    out = set()
+    for n, b in F.bodies.items():
+        for blk in b['blocks']:
+            t = blk['term']
+            if t['k'] == 'call' and (t.get('callee') or '') in COMB:
+                for c in t.get('callable_args') or []:
+                    out.add(c)
+    return out
+
+
+def _closure_operands(B, t):
+    """structural descriptions of the operands captured by the closure handed to call t (in capture order)"""
+    for a in t['args'][1:]:
+        l = op_local(a)
+        if l is None:
+            continue
+        for d in B.whole_defs(l):
+            if d[0] == 'assign' and d[4]['k'] == 'aggregate' and d[4].get('agg') == 'closure':
+                return [sdesc_operand(B, o) for o in d[4]['ops']]
+    return []
+
+
+def _sub_closure(s, ups, amap):
+    s = _UPV.sub(lambda m: ups[int(m.group(1))] if int(m.group(1)) < len(ups) else m.group(0), s)
+    return inline.subst(s, amap)
+
+
+def comb_sites(F, cg, B, i, t, facts):
+    """call sites of the closure given to an error-side combinator, as if they stood in the None / Err arm of a match on the receiver"""
+    c = t.get('callee') or ''
+    variant, payload = COMB[c]
+    recv = sdesc_operand(B, t['args'][0])
+    ups = _closure_operands(B, t)
+    pre = sorted(set(facts) | {'%s=%s' % (recv, variant)})
+    out = []
+    for cname in t.get('callable_args') or []:
+        if cname not in F.bodies:
+            continue
+        CB = cg.body(cname)
+        amap = {2: recv + payload} if payload else {}
+        for ci, ct in CB.calls():
+            cfacts = sorted(set(pre) | {_sub_closure(f, ups, amap) for f in inline.fact_strings(structural_facts(CB, ci), canon_fact)})
+            out.append((CB, ci, ct, cfacts, ups, amap))
+    return out
+
+
+def rewrite_comb(s):
+    """`ok_or_else(R,closure)?` is the payload of R when it is Some; `map_err(R,closure)?` is `R?`"""
+    for name, repl in (('ok_or_else(', '%s as Some.0'), ('ok_or(', '%s as Some.0'), ('map_err(', '%s?')):
+        start = 0
+        while True:
+            k = s.find(name, start)
+            if k < 0:
+                break
+            if k > 0 and (s[k - 1].isalnum() or s[k - 1] == '_'):
+                start = k + 1
+                continue
+            j, depth_ = k + len(name), 1
+            while j < len(s) and depth_:
+                depth_ += s[j] in '([{<'
+                depth_ -= s[j] in ')]}>'
+                j += 1
+            if depth_ == 0 and j < len(s) and s[j] == '?':
+                from errguard import _split2
+                ab = _split2(s[k + len(name):j - 1])
+                first = ab[0] if ab else s[k + len(name):j - 1]
+                s = s[:k] + (repl % first) + s[j + 1:]
+                start = k
+            else:
+                start = k + 1
+    return s
+
+
 def walk_bodies(F, cg, fn, amap=None, prefix=(), depth=0, seen=()):
     """fn's body and, recursively, the bodies of the helpers it calls that did not exist in the confirmed tree (with the argument substitution and the facts at the call)"""
     B = cg.body(fn)
@@ -243,11 +339,20 @@ def walk_bodies(F, cg, fn, amap=None, prefix=(), depth=0, seen=()):
 
 def _collect(F, cg, fns):
     res = {}
+    skip = comb_closures(F)
     for fn in fns:
-        if fn not in F.bodies:
+        if fn not in F.bodies or fn in skip:
             continue
         seen_pure = {}
+        stream = []
         for _B, i, t, facts, _inl in inline.walk_calls(F, cg, fn, structural_facts, canon_fact):
+            if (t.get('callee') or '') in COMB and t.get('callable_args'):
+                # `x.ok_or_else(|| e)` / `r.map_err(|e| f(e))`: the closure is the None / Err arm of the equivalent match, described here
+                for CB, ci, ct, cfacts, ups, camap in comb_sites(F, cg, _B, i, t, [inline.subst(f, _inl) for f in facts]):
+                    stream.append((CB, ci, ct, cfacts, _inl, (ups, camap)))
+                continue
+            stream.append((_B, i, t, facts, _inl, None))
+        for _B, i, t, facts, _inl, clo in stream:
             c = (t.get('callee') or callee_of(t) or '')
             short = c.split('::')[-1]
             if c.startswith('<std::io::Error>::'):
@@ -255,7 +360,10 @@ def _collect(F, cg, fns):
             elif TRIVIAL.match(short) or pure_query(_B, t):
                 continue
             # the operands handed to the callee (structurally described; parameters of an inlined helper replaced by the actual arguments)
-            full = inline.subst('%s(%s)' % (short, ','.join(sdesc_operand(_B, a) for a in t['args'])), _inl)
+            full = '%s(%s)' % (short, ','.join(sdesc_operand(_B, a) for a in t['args']))
+            if clo:
+                full = _sub_closure(full, clo[0], clo[1])
+            full = rewrite_comb(inline.subst(full, _inl))
             mut = any((op_local(a) is not None and _B.local_ty(op_local(a)).startswith('&mut')) for a in t['args'])
             if not mut and not errguard_io(c) and not c.startswith(('<std::io::Error>::', '<errors::')) and short not in ('read_guard', 'write_guard'):
                 # a read-only (possibly fallible) computation repeated with the same operands: only its first evaluation is part of the skeleton, so that
@@ -315,9 +423,13 @@ def _collect(F, cg, fns):
                     pairs.add('%s < %s' % (la, lb))
         if pairs:
             res['%s|order' % fn] = [sorted(pairs)]
-    for k in res:
-        res[k] = sorted(res[k])
-    return res
+    out = {}
+    for k, v in res.items():
+        k2 = rewrite_comb(k)
+        out.setdefault(k2, []).extend([[rewrite_comb(x) for x in inst] for inst in v])
+    for k in out:
+        out[k] = sorted(out[k])
+    return out
 
 
 M_ = '<sys::fs::memfs::vfs::Memfs>::'
